@@ -599,7 +599,7 @@ func (w *watch) watch(fsw *fsnotify.Watcher, m *sync.Mutex, refresh func() error
 				// The watch follows it to its new name, so drop the watch and
 				// treat the directory as removed to get it watched again if
 				// it is recreated.
-				_ = watch.Remove(event.Name)
+				w.dropWatch(event.Name)
 				w.update(dirErrors, event.Name)
 			} else {
 				w.update(dirErrors)
@@ -652,6 +652,22 @@ func (w *watch) isCurrent(dir string) bool {
 	return err == nil && os.SameFile(w.watched[dir], now)
 }
 
+// Drop the watch of the given tracked directory. If a Spec directory got
+// renamed to the name of another one, the two names share a single watch
+// until the rename is noticed. Dropping the watch for one of the names takes
+// it from the other one as well, so get that one watched again.
+func (w *watch) dropWatch(dir string) {
+	gone := w.watched[dir]
+	_ = w.watcher.Remove(dir)
+	delete(w.watched, dir)
+	for other, ok := range w.tracked {
+		if ok && other != dir && os.SameFile(gone, w.watched[other]) {
+			_ = w.watcher.Remove(other)
+			w.tracked[other] = false
+		}
+	}
+}
+
 // Update watch with pending/missing or removed directories.
 func (w *watch) update(dirErrors map[string]error, removed ...string) bool {
 	var (
@@ -674,7 +690,7 @@ func (w *watch) update(dirErrors map[string]error, removed ...string) bool {
 			if w.isCurrent(dir) {
 				continue
 			}
-			_ = w.watcher.Remove(dir)
+			w.dropWatch(dir)
 		}
 
 		err = w.addWatch(dir)
